@@ -1,7 +1,7 @@
 (* Props/C02.v — property theorems only. *)
 From Coq Require Import List NArith ZArith.
 From N0 Require Import Base.PyStr Base.PyVal Xpath.Dec Xpath.DecProofs Xpath.Token Xpath.TokenProofs
-  Xpath.Find Xpath.FindProofs Xpath.Write Xpath.SpecProofs Xpath.WalkProofs.
+  Xpath.Find Xpath.FindProofs Xpath.Write Xpath.SpecProofs Xpath.WalkProofs Xpath.SpellProofs.
 Import ListNotations.
 
 (* d[xpath] = v on a path that spells an existing node (by key, index, negative index;
@@ -13,6 +13,14 @@ Theorem C02_set_existing :
   setitem (wfuel x) root x v = Ok (replace_at root p v).
 Proof. exact set_existing. Qed.
 Print Assumptions C02_set_existing.
+
+(* the same for paths whose indexes are written last(), last()-k or a+b *)
+Theorem C02_set_existing_all_spellings :
+  forall root x v p, keys_ok root -> has_path_char x = true -> no_qmark x -> tokenize x <> [] ->
+  spells5 root p (tokenize x) ->
+  setitem (wfuel x) root x v = Ok (replace_at root p v).
+Proof. exact set_existing5. Qed.
+Print Assumptions C02_set_existing_all_spellings.
 
 (* what "exactly that one slot" means for the Spec: the written slot reads back v ... *)
 Theorem C02_get_put : forall t p v u, resolve t p = Some u -> resolve (replace_at t p v) p = Some v.
